@@ -167,6 +167,10 @@ class CacheStore(object):
         except (IOError, OSError) as e:
             if e.errno == errno.ENOENT:
                 return None
+            elif e.errno == errno.EACCES:
+                # Unreadable entry (e.g. written by another user): discard it
+                self._remove_filename(store_filename)
+                return None
             else:
                 raise
 
